@@ -533,9 +533,12 @@ func genSpec(r *run.Rand, thorough bool, known knownFn) *Spec {
 	}
 	numOf := func() string {
 		if incMode == "bad" && r.Intn(5) == 0 {
-			return r.Pick([]string{"abc", "1,5", "n/a", "--", "12ab", "1.2.3", "x1"})
+			return r.Pick([]string{"abc", "1,5", "n/a", "--", "12ab", "1.2.3", "x1", "0x1F", "0b11", "0o17"})
 		}
 		v := strconv.Itoa(r.Range(0, 99999))
+		if r.Intn(8) == 0 {
+			v = fmt.Sprintf("%06s", v) // a fixed-width, zero-padded decimal field is still decimal
+		}
 		if incMode == "mixed" && r.Intn(3) == 0 {
 			v = "-" + v
 		}
